@@ -38,12 +38,10 @@ def coq_layout(rows):
 
 
 def generate():
+    import importlib
     import sys
-    mod = sys.modules.get("reamber.bms.BMSMap")
-    if mod is None:
-        import importlib
-        mod = importlib.import_module("reamber.bms.BMSMap")
-        mod = sys.modules["reamber.bms.BMSMap"]
+    importlib.import_module("reamber.bms.BMSMap")
+    mod = sys.modules["reamber.bms.BMSMap"]          # the module (reamber.bms re-exports the class under the same name)
     out = []
     ls = live_layouts()
     for n in LAYOUTS:
